@@ -19,8 +19,13 @@ enum Ctl {
     Enable,
     Reset,
     SetT2,
+    /// remove the target component from the entity (the animator stays)
+    Detach,
+    /// insert a fresh target component (initial values), whether or not one is present
+    Attach,
 }
 const CTLS: [Ctl; 5] = [Ctl::Nothing, Ctl::Disable, Ctl::Enable, Ctl::Reset, Ctl::SetT2];
+const ALL_CTLS: [Ctl; 7] = [Ctl::Nothing, Ctl::Disable, Ctl::Enable, Ctl::Reset, Ctl::SetT2, Ctl::Detach, Ctl::Attach];
 
 fn timings() -> Vec<Tm> {
     let mut v = vec![];
@@ -88,6 +93,9 @@ struct Ent {
     on_t2: bool,
     ended_events_in_run: u32,
     entered_ended_in_run: bool,
+    /// the target component was present in the frame in which Ended was entered and has not been
+    /// detached / replaced since (only then can it be expected to hold the terminal values)
+    comp_saw_end: bool,
 }
 
 #[derive(Clone, Debug, PartialEq)]
@@ -95,12 +103,12 @@ struct Obs {
     state: AnimationState,
     pos: Duration,
     enabled: bool,
-    comp: C,
+    comp: Option<C>,
 }
 
 fn observe(world: &World, e: Entity) -> Obs {
     let a = world.get::<Animator<C>>(e).unwrap();
-    Obs { state: a.state(), pos: a.timeline_position, enabled: a.enabled, comp: world.get::<C>(e).unwrap().clone() }
+    Obs { state: a.state(), pos: a.timeline_position, enabled: a.enabled, comp: world.get::<C>(e).cloned() }
 }
 
 fn schedule_json(sched: &[f64], ent: &Ent, tms: &[Tm]) -> Value {
@@ -130,8 +138,9 @@ fn run_schedule(sched: &[f64], ctl_histories: &[Vec<Ctl>], tms: &[Tm], rank0: u6
                 }
                 _ => Animator::<C>::with_timeline(tls1[ci].clone()),
             };
-            let e = d.app.world.spawn((C::initial(), animator)).id();
-            ents.push(Ent { e, cfg: ci, ctl: h.clone(), on_t2: false, ended_events_in_run: 0, entered_ended_in_run: false });
+            // histories that start with Detach are spawned without the target component at all
+            let e = if h.first() == Some(&Ctl::Detach) { d.app.world.spawn((animator,)).id() } else { d.app.world.spawn((C::initial(), animator)).id() };
+            ents.push(Ent { e, cfg: ci, ctl: h.clone(), on_t2: false, ended_events_in_run: 0, entered_ended_in_run: false, comp_saw_end: false });
         }
     }
     let nent = ents.len();
@@ -143,7 +152,13 @@ fn run_schedule(sched: &[f64], ctl_histories: &[Vec<Ctl>], tms: &[Tm], rank0: u6
         let mut pre: Vec<Obs> = Vec::with_capacity(nent);
         for ent in ents.iter_mut() {
             let c = ent.ctl.get(f).copied().unwrap_or(Ctl::Nothing);
-            if c != Ctl::Nothing {
+            if c == Ctl::Detach {
+                d.app.world.entity_mut(ent.e).remove::<C>();
+                ent.comp_saw_end = false;
+            } else if c == Ctl::Attach {
+                d.app.world.entity_mut(ent.e).insert(C::initial());
+                ent.comp_saw_end = false;
+            } else if c != Ctl::Nothing {
                 let mut a = d.app.world.get_mut::<Animator<C>>(ent.e).unwrap();
                 match c {
                     Ctl::Disable => a.enabled = false,
@@ -159,7 +174,7 @@ fn run_schedule(sched: &[f64], ctl_histories: &[Vec<Ctl>], tms: &[Tm], rank0: u6
                         ent.ended_events_in_run = 0;
                         ent.entered_ended_in_run = false;
                     }
-                    Ctl::Nothing => {}
+                    Ctl::Nothing | Ctl::Detach | Ctl::Attach => {}
                 }
             }
             pre.push(observe(&d.app.world, ent.e));
@@ -181,7 +196,7 @@ fn run_schedule(sched: &[f64], ctl_histories: &[Vec<Ctl>], tms: &[Tm], rank0: u6
             let rank = rank0 | (f as u64) << 24 | i as u64;
             let p = o.pos.as_secs_f32();
             if acc.outcomes.len() < 20_000 {
-                acc.outcomes.insert((rank_of(n.state) as u64) << 60 ^ (n.comp.x.to_bits() as u64) << 20 ^ n.pos.as_nanos() as u64);
+                acc.outcomes.insert((rank_of(n.state) as u64) << 60 ^ (n.comp.as_ref().map(|c| c.x.to_bits()).unwrap_or(7) as u64) << 20 ^ n.pos.as_nanos() as u64);
             }
             macro_rules! viol {
                 ($sig:expr, $($arg:tt)*) => {{
@@ -240,26 +255,33 @@ fn run_schedule(sched: &[f64], ctl_histories: &[Vec<Ctl>], tms: &[Tm], rank0: u6
             }
             if o.state != AnimationState::Ended && n.state == AnimationState::Ended {
                 ent.entered_ended_in_run = true;
+                ent.comp_saw_end = o.comp.is_some();
             }
-            // R6 terminal values whenever Ended (entered under the current timeline)
-            if n.state == AnimationState::Ended && ent.entered_ended_in_run {
-                let mut want = o.comp.clone();
+            // R6 terminal values whenever Ended (entered under the current timeline, with the component on
+            // the entity at that moment and not replaced since)
+            if let (true, Some(oc), Some(nc)) = (n.state == AnimationState::Ended && ent.entered_ended_in_run && ent.comp_saw_end, &o.comp, &n.comp) {
+                let mut want = oc.clone();
                 tl.update(&mut want, f32::MAX);
-                if n.comp.bits() != want.bits() {
+                if nc.bits() != want.bits() {
                     let how = if o.state == AnimationState::Ended { "later-frame" } else if o.state == AnimationState::Playing { "from-playing" } else { "without-ever-playing" };
                     viol!(&format!("R6:ended-without-terminal-values:{how}"), "reports Ended but component {:?} != terminal values {:?}", n.comp, want);
                 }
             }
             // R7 while playing the component follows the timeline at the frame-start position
-            if o.state == AnimationState::Playing && n.state == AnimationState::Playing {
-                let mut want = o.comp.clone();
+            if let (true, Some(oc), Some(nc)) = (o.state == AnimationState::Playing && n.state == AnimationState::Playing, &o.comp, &n.comp) {
+                let mut want = oc.clone();
                 tl.update(&mut want, p);
-                if n.comp.bits() != want.bits() {
+                if nc.bits() != want.bits() {
                     viol!("R7:playing-component-not-timeline-value", "component {:?} != timeline at {p}: {:?}", n.comp, want);
                 }
             }
-            if n.comp.y.to_bits() != o.comp.y.to_bits() {
-                viol!("R7:unanimated-field-touched", "field y changed");
+            if let (Some(oc), Some(nc)) = (&o.comp, &n.comp) {
+                if nc.y.to_bits() != oc.y.to_bits() {
+                    viol!("R7:unanimated-field-touched", "field y changed");
+                }
+            }
+            if o.comp.is_some() != n.comp.is_some() {
+                viol!("R7:component-presence-changed", "the frame added or removed the target component");
             }
             // R9 events
             if n.state != o.state {
@@ -352,6 +374,19 @@ pub fn run(run: Run) -> ! {
             }
             ctl_dev.push(h);
         }
+        // target component absent for two frames, or from the start until `pos`
+        let mut h = vec![Ctl::Nothing; horizon];
+        h[pos] = Ctl::Detach;
+        if pos + 2 < horizon {
+            h[pos + 2] = Ctl::Attach;
+        }
+        ctl_dev.push(h);
+        if pos > 0 {
+            let mut h = vec![Ctl::Nothing; horizon];
+            h[0] = Ctl::Detach;
+            h[pos] = Ctl::Attach;
+            ctl_dev.push(h);
+        }
     }
     let dev = par_fold(
         scheds.len(),
@@ -388,13 +423,35 @@ pub fn run(run: Run) -> ! {
     );
     let nd_apps = nd.apps;
     merge(&mut acc, nd);
+    // presence pass: the target component is detached / (re)attached between frames (an entity may carry an
+    // Animator<C> before, or without ever, carrying C): all schedules x all histories over {nothing, detach, attach}
+    let mut pr_ctl: Vec<Vec<Ctl>> = vec![vec![]];
+    for _ in 0..depth {
+        pr_ctl = pr_ctl.iter().flat_map(|h| [Ctl::Nothing, Ctl::Detach, Ctl::Attach].into_iter().map(move |c| { let mut x = h.clone(); x.push(c); x })).collect();
+    }
+    let pr = par_fold(
+        nsched,
+        Acc::default,
+        |si, acc| {
+            let mut sched = vec![];
+            let mut c = si;
+            for _ in 0..depth {
+                sched.push(DELTAS[c % 4]);
+                c /= 4;
+            }
+            run_schedule(&sched, &pr_ctl, &tms, (2u64 << 60) | (si as u64) << 40, acc);
+        },
+        merge,
+    );
+    let pr_apps = pr.apps;
+    merge(&mut acc, pr);
     let mut cov = Map::new();
     cov.insert("states".into(), json!(acc.entity_frames));
     cov.insert("transitions".into(), json!(acc.entity_frames));
     cov.insert("traces_validated_against_impl".into(), json!(acc.apps));
     cov.insert("evaluations".into(), json!(acc.rule_checks));
     cov.insert("distinct_nontrivial".into(), json!(acc.nontrivial));
-    cov.insert("rule".into(), json!(format!("real headless bevy App (AnimationPlugin<C>, hand-driven Time resource, single-threaded executor): ALL {} frame-delta schedules of length {} over {{0, 2^-9, 1/4, 8}} s x ALL {} per-entity control histories over {{nothing, disable, enable, reset, set_timeline(T2)}} (one control before each frame) x 12 timings (delay 0|1/2 x None|Times 1|Infinite x forward|reverse, cycle 1 s), one App per schedule hosting every (timing, control history) as its own entity; plus a deviation-bounded pass: default delta 1/4, all schedules of {} frames with <= {} deviations ({} schedules) x control histories with <= 1 control; plus a non-dyadic pass ({} schedules over deltas 0, 50 ms, 100 ms, 8 s x 4 timelines whose totals 0.3/0.4/0.7/0.3 s are not exactly representable x reset histories). Rules per entity-frame: R1 position += delta while Waiting/Playing and frozen when Ended; R2 state never moves backwards; R3 Waiting only while position < delay; R4 Ended iff position >= total (checked at the frame-start position); R5 never Ended when infinite; R6 Ended => component == terminal values; R7 Playing => component == timeline at the frame-start position; R8 disabled => nothing changes, no event; R9 exactly one event per state change carrying the final state, one Ended per run. non-trivial = entity-frames in which the state changed", nsched, depth, ctl_h.len(), horizon, k, dev_apps, nd_apps)));
+    cov.insert("rule".into(), json!(format!("real headless bevy App (AnimationPlugin<C>, hand-driven Time resource, single-threaded executor): ALL {} frame-delta schedules of length {} over {{0, 2^-9, 1/4, 8}} s x ALL {} per-entity control histories over {{nothing, disable, enable, reset, set_timeline(T2)}} (one control before each frame) x 12 timings (delay 0|1/2 x None|Times 1|Infinite x forward|reverse, cycle 1 s), one App per schedule hosting every (timing, control history) as its own entity; plus a deviation-bounded pass: default delta 1/4, all schedules of {} frames with <= {} deviations ({} schedules) x control histories with <= 1 control; plus a non-dyadic pass ({} schedules over deltas 0, 50 ms, 100 ms, 8 s x 4 timelines whose totals 0.3/0.4/0.7/0.3 s are not exactly representable x reset histories); plus a presence pass ({} Apps: all schedules x ALL histories over {{nothing, detach the target component, attach a fresh one}}; histories starting with detach spawn the animator without the component) - the animator's clock, state and events must not depend on the component being there, R6/R7 apply while it is. Rules per entity-frame: R1 position += delta while Waiting/Playing and frozen when Ended; R2 state never moves backwards; R3 Waiting only while position < delay; R4 Ended iff position >= total (checked at the frame-start position); R5 never Ended when infinite; R6 Ended => component == terminal values; R7 Playing => component == timeline at the frame-start position; R8 disabled => nothing changes, no event; R9 exactly one event per state change carrying the final state, one Ended per run. non-trivial = entity-frames in which the state changed", nsched, depth, ctl_h.len(), horizon, k, dev_apps, nd_apps, pr_apps)));
     cov.insert("exhaustive".into(), json!(true));
     cov.insert("apps".into(), json!(acc.apps));
     cov.insert("events_observed".into(), json!(acc.events));
@@ -410,7 +467,7 @@ pub fn replay(case: &Value) -> bool {
     let tmj = &case["timing"];
     let ci = tms.iter().position(|t| t.json() == *tmj).unwrap_or(0);
     let sched: Vec<f64> = case["frame_deltas_s"].as_array().map(|a| a.iter().map(|x| x.as_f64().unwrap()).collect()).unwrap_or_default();
-    let ctl: Vec<Ctl> = case["control_before_each_frame"].as_array().map(|a| a.iter().map(|x| *CTLS.iter().find(|c| format!("{c:?}") == x.as_str().unwrap()).unwrap()).collect()).unwrap_or_default();
+    let ctl: Vec<Ctl> = case["control_before_each_frame"].as_array().map(|a| a.iter().map(|x| *ALL_CTLS.iter().find(|c| format!("{c:?}") == x.as_str().unwrap()).unwrap()).collect()).unwrap_or_default();
     let mut acc = Acc::default();
     run_schedule(&sched, &[ctl], &tms[ci..ci + 1], 0, &mut acc);
     for (s, v) in &acc.sink.map {
